@@ -63,6 +63,7 @@ impl<'a> Draw<'a> for &'a str { fn draw(g: &mut Gen, ar: &'a Arena, _: &mut Pres
 impl<'a> Draw<'a> for std::borrow::Cow<'a, str> { fn draw(g: &mut Gen, ar: &'a Arena, _: &mut Presence) -> Self { std::borrow::Cow::Borrowed(ar.str(g.string(30))) } }
 impl<'a> Draw<'a> for &'a [u8] { fn draw(g: &mut Gen, ar: &'a Arena, _: &mut Presence) -> Self { ar.bytes(g.bytes(40)) } }
 impl<'a> Draw<'a> for std::borrow::Cow<'a, [u8]> { fn draw(g: &mut Gen, ar: &'a Arena, _: &mut Presence) -> Self { std::borrow::Cow::Borrowed(ar.bytes(g.bytes(40))) } }
+impl<'a> Draw<'a> for std::borrow::Cow<'a, minicbor::bytes::ByteSlice> { fn draw(g: &mut Gen, ar: &'a Arena, _: &mut Presence) -> Self { std::borrow::Cow::Borrowed(<&minicbor::bytes::ByteSlice>::from(ar.bytes(g.bytes(40)))) } }
 impl<'a> Draw<'a> for &'a minicbor::bytes::ByteSlice { fn draw(g: &mut Gen, ar: &'a Arena, _: &mut Presence) -> Self { <&minicbor::bytes::ByteSlice>::from(ar.bytes(g.bytes(40))) } }
 impl<'a, T: Draw<'a>> Draw<'a> for Option<T> { fn draw(g: &mut Gen, ar: &'a Arena, pm: &mut Presence) -> Self { if pm.next(g) { Some(T::draw(g, ar, pm)) } else { None } } }
 impl<'a, T: Draw<'a>> Draw<'a> for Vec<T> { fn draw(g: &mut Gen, ar: &'a Arena, pm: &mut Presence) -> Self { let n = g.len(30).min(30); (0 .. n).map(|_| T::draw(g, ar, pm)).collect() } }
